@@ -600,4 +600,549 @@ theorem accepts_unsubscribe (id : UInt16) (fs : List Bytes) (hwf : Wire.WF (.uns
     rw [u16of_u16, hp]
 
 
+theorem readField_wire (pre s post : Bytes) (hs : s.length ≤ 65535) :
+    readField (pre ++ (Wire.str s ++ post)) pre.length =
+      .ok (s, (pre.length + 2, s.length), pre.length + (2 + s.length)) := by
+  unfold readField
+  rw [sliceFrom_eq (a := pre) (b := Wire.str s ++ post) rfl rfl]
+  simp only [bind_ok]
+  rw [readLP_wire _ _ hs]
+  simp only [bind_ok]
+
+theorem beU16_u16 (v : UInt16) :
+    beU16 ((Wire.u16 v).headD 0) ((Wire.u16 v).getD 1 0) = v.toNat := by
+  unfold Wire.u16 beU16
+  have := v.toNat_lt
+  simp only [List.headD_cons, List.getD_cons_succ, List.getD_cons_zero]
+  rw [u8_ofNat_toNat (by omega), u8_ofNat_toNat (by omega)]
+  omega
+
+theorem connectFixed_wire (c0 : ConnectF) (name : Bytes) (level cf : UInt8) (ka : UInt16) (tail : Bytes)
+    (hn : name.length ≤ 65535) (hv : versionName level.toNat = some name)
+    (h0 : cf.toNat % 2 = 0) (hq : cf.toNat / 8 % 4 ≤ 2)
+    (hw : cf.toNat / 4 % 2 = 1 ∨ (cf.toNat / 32 % 2 = 0 ∧ cf.toNat / 8 % 4 = 0)) :
+    connectFixed c0 (Wire.str name ++ (level :: cf :: (Wire.u16 ka ++ tail))) =
+      .ok ({ c0 with protoName := name, version := level, connectFlags := cf, keepAlive := ka.toNat },
+           2 + name.length + 1 + 1 + 2) := by
+  unfold connectFixed
+  have hrf := readField_wire [] name (level :: cf :: (Wire.u16 ka ++ tail)) hn
+  simp only [List.nil_append, List.length_nil, Nat.zero_add] at hrf
+  rw [hrf]
+  simp only [bind_ok]
+  rw [sliceFrom_eq (a := Wire.str name) (b := level :: cf :: (Wire.u16 ka ++ tail)) rfl (by simp [Wire.str]; omega)]
+  simp only [bind_ok]
+  rw [if_neg (by simp)]
+  rw [index_eq (a := Wire.str name) (b := cf :: (Wire.u16 ka ++ tail)) (x := level) rfl (by simp [Wire.str]; omega)]
+  simp only [bind_ok]
+  rw [if_neg (by simp [hv])]
+  rw [index_eq (a := Wire.str name ++ [level]) (b := Wire.u16 ka ++ tail) (x := cf) (by simp) (by simp [Wire.str]; omega)]
+  simp only [bind_ok]
+  rw [if_neg (by omega)]
+  rw [if_neg (by simp only [ConnectF.willQos, qosExactlyOnce]; omega)]
+  rw [if_neg (by
+    simp only [ConnectF.willFlag, ConnectF.willRetain, ConnectF.willQos, qosAtMostOnce, Bool.and_eq_true, Bool.not_eq_true',
+      decide_eq_false_iff_not, Bool.or_eq_true, decide_eq_true_eq, not_and, not_or]
+    intro hwf
+    rcases hw with hw | hw
+    · exact absurd hw hwf
+    · exact ⟨by omega, by simp [hw.2]⟩)]
+  rw [sliceFrom_eq (a := Wire.str name ++ [level, cf]) (b := Wire.u16 ka ++ tail) (by simp) (by simp [Wire.str]; omega)]
+  simp only [bind_ok]
+  rw [if_neg (by simp [Wire.u16])]
+  rw [slice_eq (a := Wire.str name ++ [level, cf]) (m := Wire.u16 ka) (b := tail) (by simp) (by simp [Wire.str]; omega) (by simp [Wire.str, Wire.u16]; omega)]
+  simp only [bind_ok]
+  rw [beU16_u16]
+
+theorem connectClientID_wire (c : ConnectF) (pre cid post : Bytes) (base : Nat) (hl : cid.length ≤ 65535)
+    (h1 : ¬ (cid.length = 0 ∧ c.cleanSession = false))
+    (h2 : cid.length > 0 → validClientID cid = true) :
+    connectClientID c (pre ++ (Wire.str cid ++ post)) pre.length base =
+      .ok ({ c with clientID := cid }, (base + (pre.length + 2), cid.length), pre.length + (2 + cid.length)) := by
+  unfold connectClientID
+  rw [readField_wire _ _ _ hl]
+  simp only [bind_ok]
+  have hcs : ({ c with clientID := cid } : ConnectF).cleanSession = c.cleanSession := rfl
+  rw [if_neg (by
+    simp only [Bool.and_eq_true, decide_eq_true_eq, Bool.not_eq_true', hcs]
+    exact h1)]
+  rw [if_neg (by
+    simp only [Bool.and_eq_true, decide_eq_true_eq, Bool.not_eq_true', not_and, Bool.not_eq_false]
+    exact h2)]
+
+theorem connectWill_wire_some (c : ConnectF) (pre wt wm post : Bytes) (base : Nat)
+    (hf : c.willFlag = true) (h1 : wt.length ≤ 65535) (h2 : wm.length ≤ 65535) :
+    ∃ v1 v2, connectWill c (pre ++ (Wire.str wt ++ (Wire.str wm ++ post))) pre.length base =
+      .ok ({ c with willTopic := wt, willMessage := wm }, v1, v2, pre.length + (2 + wt.length) + (2 + wm.length)) := by
+  unfold connectWill
+  rw [if_pos hf]
+  rw [readField_wire _ _ _ h1]
+  simp only [bind_ok]
+  have e : pre ++ (Wire.str wt ++ (Wire.str wm ++ post)) = (pre ++ Wire.str wt) ++ (Wire.str wm ++ post) := by simp
+  have el : pre.length + (2 + wt.length) = (pre ++ Wire.str wt).length := by simp [Wire.str]; omega
+  rw [e, el, readField_wire _ _ _ h2]
+  simp only [bind_ok]
+  exact ⟨_, _, rfl⟩
+
+theorem connectWill_wire_none (c : ConnectF) (src : Bytes) (total base : Nat) (hf : c.willFlag = false) :
+    connectWill c src total base = .ok (c, (0, 0), (0, 0), total) := by
+  unfold connectWill
+  rw [if_neg (by simp [hf])]
+
+theorem connectUser_wire_some (c : ConnectF) (pre u post : Bytes) (base : Nat)
+    (hf : c.usernameFlag = true) (h1 : u.length ≤ 65535) :
+    ∃ v, connectUser c (pre ++ (Wire.str u ++ post)) pre.length base =
+      .ok ({ c with username := u }, v, pre.length + (2 + u.length)) := by
+  unfold connectUser
+  rw [sliceFrom_eq (a := pre) (b := Wire.str u ++ post) rfl rfl]
+  simp only [bind_ok]
+  rw [if_pos (by simp [hf, Wire.str])]
+  rw [readField_wire _ _ _ h1]
+  simp only [bind_ok]
+  exact ⟨_, rfl⟩
+
+theorem connectUser_wire_none (c : ConnectF) (src : Bytes) (total base : Nat) (ht : total ≤ src.length)
+    (hf : c.usernameFlag = false) :
+    connectUser c src total base = .ok (c, (0, 0), total) := by
+  unfold connectUser
+  rw [sliceFrom_ok ht]
+  simp only [bind_ok]
+  rw [if_neg (by simp [hf])]
+
+theorem connectPass_wire_some (c : ConnectF) (pre u post : Bytes) (base : Nat)
+    (hf : c.passwordFlag = true) (h1 : u.length ≤ 65535) :
+    ∃ v, connectPass c (pre ++ (Wire.str u ++ post)) pre.length base =
+      .ok ({ c with password := u }, v, pre.length + (2 + u.length)) := by
+  unfold connectPass
+  rw [sliceFrom_eq (a := pre) (b := Wire.str u ++ post) rfl rfl]
+  simp only [bind_ok]
+  rw [if_pos (by simp [hf, Wire.str])]
+  rw [readField_wire _ _ _ h1]
+  simp only [bind_ok]
+  exact ⟨_, rfl⟩
+
+theorem connectPass_wire_none (c : ConnectF) (src : Bytes) (total base : Nat) (ht : total ≤ src.length)
+    (hf : c.passwordFlag = false) :
+    connectPass c src total base = .ok (c, (0, 0), total) := by
+  unfold connectPass
+  rw [sliceFrom_ok ht]
+  simp only [bind_ok]
+  rw [if_neg (by simp [hf])]
+
+
+def willQosOf (c : Wire.Connect) : Nat := match c.will with | some w => w.qos.toNat | none => 0
+def willRetainOf (c : Wire.Connect) : Bool := match c.will with | some w => w.retain | none => false
+
+theorem flags_bits (c : Wire.Connect) (hq : willQosOf c ≤ 2) :
+    c.flags < 256 ∧ c.flags % 2 = 0 ∧ (c.flags / 2 % 2 = 1 ↔ c.clean = true) ∧
+    (c.flags / 4 % 2 = 1 ↔ c.will.isSome = true) ∧ c.flags / 8 % 4 = willQosOf c ∧
+    (c.flags / 32 % 2 = 1 ↔ willRetainOf c = true) ∧
+    (c.flags / 64 % 2 = 1 ↔ c.password.isSome = true) ∧ (c.flags / 128 % 2 = 1 ↔ c.username.isSome = true) := by
+  obtain ⟨level, clean, ka, cid, will, un, pw⟩ := c
+  unfold Wire.Connect.flags willQosOf willRetainOf at *
+  simp only [] at *
+  cases will with
+  | none =>
+    cases clean <;> cases un <;> cases pw <;> simp [Wire.b2n]
+  | some w =>
+    obtain ⟨wt, wm, q, r⟩ := w
+    simp only [] at hq ⊢
+    have : q.toNat = 0 ∨ q.toNat = 1 ∨ q.toNat = 2 := by omega
+    rcases this with h | h | h <;> rw [h] <;> cases clean <;> cases un <;> cases pw <;> cases r <;> simp [Wire.b2n]
+
+def willBytes : Option Wire.Will → Bytes
+  | some w => Wire.str w.topic ++ Wire.str w.message
+  | none => []
+
+def setWill (c : ConnectF) : Option Wire.Will → ConnectF
+  | some x => { c with willTopic := x.topic, willMessage := x.message }
+  | none => c
+def setUser (c : ConnectF) : Option Bytes → ConnectF
+  | some x => { c with username := x }
+  | none => c
+def setPass (c : ConnectF) : Option Bytes → ConnectF
+  | some x => { c with password := x }
+  | none => c
+
+@[simp] theorem setWill_flags (c : ConnectF) (w : Option Wire.Will) : (setWill c w).connectFlags = c.connectFlags := by
+  cases w <;> rfl
+@[simp] theorem setUser_flags (c : ConnectF) (w : Option Bytes) : (setUser c w).connectFlags = c.connectFlags := by
+  cases w <;> rfl
+@[simp] theorem setPass_flags (c : ConnectF) (w : Option Bytes) : (setPass c w).connectFlags = c.connectFlags := by
+  cases w <;> rfl
+
+theorem connectWill_wire (c : ConnectF) (pre post : Bytes) (w : Option Wire.Will) (base : Nat)
+    (hf : c.willFlag = w.isSome)
+    (hok : ∀ x, w = some x → x.topic.length ≤ 65535 ∧ x.message.length ≤ 65535) :
+    ∃ v1 v2, connectWill c (pre ++ (willBytes w ++ post)) pre.length base =
+      .ok (setWill c w, v1, v2, pre.length + (willBytes w).length) := by
+  cases w with
+  | none =>
+    refine ⟨(0, 0), (0, 0), ?_⟩
+    rw [connectWill_wire_none _ _ _ _ (by simpa using hf)]
+    simp [willBytes, setWill]
+  | some x =>
+    obtain ⟨h1, h2⟩ := hok x rfl
+    obtain ⟨v1, v2, h⟩ := connectWill_wire_some c pre x.topic x.message post base (by simpa using hf) h1 h2
+    refine ⟨v1, v2, ?_⟩
+    simp only [willBytes, List.append_assoc]
+    rw [h]
+    simp [Wire.str, setWill]; omega
+
+theorem connectUser_wire (c : ConnectF) (pre post : Bytes) (u : Option Bytes) (base : Nat)
+    (hf : c.usernameFlag = u.isSome) (hok : ∀ x, u = some x → x.length ≤ 65535)
+    (hpost : u = none → True) :
+    ∃ v, connectUser c (pre ++ (Wire.optStr u ++ post)) pre.length base =
+      .ok (setUser c u, v, pre.length + (Wire.optStr u).length) := by
+  cases u with
+  | none =>
+    refine ⟨(0, 0), ?_⟩
+    rw [connectUser_wire_none _ _ _ _ (by simp) (by simpa using hf)]
+    simp [Wire.optStr, setUser]
+  | some x =>
+    obtain ⟨v, h⟩ := connectUser_wire_some c pre x post base (by simpa using hf) (hok x rfl)
+    refine ⟨v, ?_⟩
+    simp only [Wire.optStr]
+    rw [h]
+    simp [Wire.str, setUser, setPass]; omega
+
+theorem connectPass_wire (c : ConnectF) (pre post : Bytes) (u : Option Bytes) (base : Nat)
+    (hf : c.passwordFlag = u.isSome) (hok : ∀ x, u = some x → x.length ≤ 65535) :
+    ∃ v, connectPass c (pre ++ (Wire.optStr u ++ post)) pre.length base =
+      .ok (setPass c u, v, pre.length + (Wire.optStr u).length) := by
+  cases u with
+  | none =>
+    refine ⟨(0, 0), ?_⟩
+    rw [connectPass_wire_none _ _ _ _ (by simp) (by simpa using hf)]
+    simp [Wire.optStr, setPass]
+  | some x =>
+    obtain ⟨v, h⟩ := connectPass_wire_some c pre x post base (by simpa using hf) (hok x rfl)
+    refine ⟨v, ?_⟩
+    simp only [Wire.optStr]
+    rw [h]
+    simp [Wire.str, setUser, setPass]; omega
+
+theorem connect_body_eq (c : Wire.Connect) :
+    (Wire.Packet.connect c).body =
+      Wire.str (Wire.protoName c.level) ++ (c.level :: UInt8.ofNat c.flags :: (Wire.u16 c.keepAlive ++
+        (Wire.str c.clientId ++ (willBytes c.will ++ (Wire.optStr c.username ++ (Wire.optStr c.password ++ [])))))) := by
+  obtain ⟨level, clean, ka, cid, will, un, pw⟩ := c
+  cases will <;> simp [Wire.Packet.body, willBytes]
+
+theorem validClientID_of_ok (cid : Bytes) (clean : Bool) (h : Wire.clientIdOk cid clean = true) :
+    cid.length ≤ 32 ∧ (cid.length > 0 → validClientID cid = true) ∧ ¬ (cid.length = 0 ∧ clean = false) := by
+  unfold Wire.clientIdOk at h
+  simp only [Bool.and_eq_true, decide_eq_true_eq, Bool.or_eq_true, Bool.not_eq_true'] at h
+  obtain ⟨⟨h1, h2⟩, h3⟩ := h
+  refine ⟨h1, ?_, ?_⟩
+  · intro _
+    unfold validClientID
+    simp only [Bool.and_eq_true, clientIDMaxLen]
+    refine ⟨decide_eq_true h1, ?_⟩
+    rw [List.all_eq_true] at h2 ⊢
+    intro b hb
+    have := h2 b hb
+    unfold Wire.printable at this
+    simp only [Bool.and_eq_true, decide_eq_true_eq] at this ⊢
+    exact ⟨this.1, this.2⟩
+  · intro ⟨e1, e2⟩
+    rcases h3 with h3 | h3
+    · cases cid with
+      | nil => simp at h3
+      | cons a r => simp at e1
+    · rw [h3] at e2; cases e2
+
+theorem decodeConnectMessage_wire (c : Wire.Connect) (hwf : Wire.WF (.connect c)) (base : Nat) :
+    ∃ c' vs, decodeConnectMessage {} (Wire.Packet.connect c).body base =
+        .ok (c', (Wire.Packet.connect c).body.length, vs) ∧
+      c'.version = c.level ∧ c'.connectFlags = UInt8.ofNat c.flags ∧ c'.keepAlive = c.keepAlive.toNat ∧
+      c'.clientID = c.clientId ∧
+      (∀ w, c.will = some w → c'.willTopic = w.topic ∧ c'.willMessage = w.message) ∧
+      (∀ u, c.username = some u → c'.username = u) ∧ (∀ p, c.password = some p → c'.password = p) := by
+  unfold Wire.WF Wire.wf at hwf
+  simp only [Bool.and_eq_true, Bool.or_eq_true, decide_eq_true_eq] at hwf
+  obtain ⟨⟨⟨⟨hlev, hcid⟩, hwill⟩, hun⟩, hpw⟩ := hwf
+  have hq : willQosOf c ≤ 2 := by
+    unfold willQosOf
+    cases hw : c.will with
+    | none => simp
+    | some w =>
+      rw [hw] at hwill
+      simp only [Bool.and_eq_true, decide_eq_true_eq] at hwill
+      exact hwill.2
+  obtain ⟨fb1, fb2, fb3, fb4, fb5, fb6, fb7, fb8⟩ := flags_bits c hq
+  have hF : (UInt8.ofNat c.flags).toNat = c.flags := u8_ofNat_toNat fb1
+  obtain ⟨hc1, hc2, hc3⟩ := validClientID_of_ok _ _ hcid
+  have hver : versionName c.level.toNat = some (Wire.protoName c.level) := by
+    rcases hlev with h | h <;> rw [h] <;> decide
+  have hnl : (Wire.protoName c.level).length ≤ 65535 := by
+    rcases hlev with h | h <;> rw [h] <;> decide
+  rw [connect_body_eq]
+  unfold decodeConnectMessage
+  rw [connectFixed_wire {} _ _ _ _ _ hnl hver (by rw [hF]; exact fb2) (by rw [hF, fb5]; exact hq)
+    (by
+      rw [hF, fb5]
+      cases hw : c.will with
+      | none =>
+        right
+        refine ⟨?_, by simp [willQosOf, hw]⟩
+        have : ¬ (c.flags / 32 % 2 = 1) := by rw [fb6]; simp [willRetainOf, hw]
+        omega
+      | some w => left; rw [fb4, hw]; rfl)]
+  simp only [bind_ok]
+  obtain ⟨c1, hc1'⟩ : ∃ c1 : ConnectF, (ConnectF.mk (UInt8.ofNat c.flags) c.level c.keepAlive.toNat
+    (Wire.protoName c.level) [] [] [] [] []) = c1 := ⟨_, rfl⟩
+  have hc1'' : ({ connectFlags := UInt8.ofNat c.flags, version := c.level, keepAlive := c.keepAlive.toNat, protoName := Wire.protoName c.level } : ConnectF) = c1 := hc1'
+  rw [hc1'']
+  have c1_flags : c1.connectFlags = UInt8.ofNat c.flags := by rw [← hc1']
+  have c1_ver : c1.version = c.level := by rw [← hc1']
+  have c1_ka : c1.keepAlive = c.keepAlive.toNat := by rw [← hc1']
+  generalize hN : Wire.protoName c.level = name at *
+  generalize hB : (Wire.str name ++ c.level :: UInt8.ofNat c.flags :: (Wire.u16 c.keepAlive ++ (Wire.str c.clientId ++
+      (willBytes c.will ++ (Wire.optStr c.username ++ (Wire.optStr c.password ++ [])))))) = B
+  -- client identifier
+  have eB1 : B = (Wire.str name ++ (c.level :: UInt8.ofNat c.flags :: Wire.u16 c.keepAlive)) ++ (Wire.str c.clientId ++
+      (willBytes c.will ++ (Wire.optStr c.username ++ (Wire.optStr c.password ++ [])))) := by rw [← hB]; simp
+  have eL1 : 2 + name.length + 1 + 1 + 2 = (Wire.str name ++ (c.level :: UInt8.ofNat c.flags :: Wire.u16 c.keepAlive)).length := by
+    simp [Wire.str, Wire.u16]; omega
+  have s2 := connectClientID_wire c1 (Wire.str name ++ (c.level :: UInt8.ofNat c.flags :: Wire.u16 c.keepAlive)) c.clientId
+      (willBytes c.will ++ (Wire.optStr c.username ++ (Wire.optStr c.password ++ []))) base (by omega)
+      (by
+        intro ⟨e1, e2⟩
+        apply hc3
+        refine ⟨e1, ?_⟩
+        have : c1.cleanSession = decide (c.flags / 2 % 2 = 1) := by
+          unfold ConnectF.cleanSession; rw [c1_flags, hF]
+        rw [this] at e2
+        cases hcl : c.clean with
+        | false => rfl
+        | true => rw [decide_eq_false_iff_not, fb3, hcl] at e2; exact absurd rfl e2)
+      hc2
+  rw [← eB1, ← eL1] at s2
+  rw [s2]; simp only [bind_ok]
+  obtain ⟨c2, hc2'⟩ : ∃ c2 : ConnectF, ({ c1 with clientID := c.clientId } : ConnectF) = c2 := ⟨_, rfl⟩
+  rw [hc2']
+  have c2_flags : c2.connectFlags = UInt8.ofNat c.flags := by rw [← hc2']; exact c1_flags
+  -- will
+  have eB2 : B = (Wire.str name ++ (c.level :: UInt8.ofNat c.flags :: Wire.u16 c.keepAlive) ++ Wire.str c.clientId) ++
+      (willBytes c.will ++ (Wire.optStr c.username ++ (Wire.optStr c.password ++ []))) := by rw [← hB]; simp
+  have eL2 : 2 + name.length + 1 + 1 + 2 + (2 + c.clientId.length) =
+      (Wire.str name ++ (c.level :: UInt8.ofNat c.flags :: Wire.u16 c.keepAlive) ++ Wire.str c.clientId).length := by
+    simp [Wire.str, Wire.u16]; omega
+  obtain ⟨v1, v2, s3⟩ := connectWill_wire c2 (Wire.str name ++ (c.level :: UInt8.ofNat c.flags :: Wire.u16 c.keepAlive) ++ Wire.str c.clientId)
+      (Wire.optStr c.username ++ (Wire.optStr c.password ++ [])) c.will base
+      (by
+        unfold ConnectF.willFlag; rw [c2_flags, hF]
+        cases hw : c.will.isSome with
+        | false => rw [decide_eq_false_iff_not, fb4, hw]; simp
+        | true => rw [decide_eq_true_eq, fb4, hw])
+      (by
+        intro x hx
+        rw [hx] at hwill
+        simp only [Bool.and_eq_true, decide_eq_true_eq, Wire.strOk] at hwill
+        exact ⟨hwill.1.1, hwill.1.2⟩)
+  rw [← eB2, ← eL2] at s3
+  rw [s3]; simp only [bind_ok]
+  obtain ⟨c3, hc3'⟩ : ∃ c3 : ConnectF, setWill c2 c.will = c3 := ⟨_, rfl⟩
+  rw [hc3']
+  have c3_flags : c3.connectFlags = UInt8.ofNat c.flags := by rw [← hc3', setWill_flags]; exact c2_flags
+  -- user name
+  have eB3 : B = (Wire.str name ++ (c.level :: UInt8.ofNat c.flags :: Wire.u16 c.keepAlive) ++ Wire.str c.clientId ++ willBytes c.will) ++
+      (Wire.optStr c.username ++ (Wire.optStr c.password ++ [])) := by rw [← hB]; simp
+  have eL3 : 2 + name.length + 1 + 1 + 2 + (2 + c.clientId.length) + (willBytes c.will).length =
+      (Wire.str name ++ (c.level :: UInt8.ofNat c.flags :: Wire.u16 c.keepAlive) ++ Wire.str c.clientId ++ willBytes c.will).length := by
+    simp [Wire.str, Wire.u16]; omega
+  obtain ⟨v3, s4⟩ := connectUser_wire c3 (Wire.str name ++ (c.level :: UInt8.ofNat c.flags :: Wire.u16 c.keepAlive) ++ Wire.str c.clientId ++ willBytes c.will)
+      (Wire.optStr c.password ++ []) c.username base
+      (by
+        unfold ConnectF.usernameFlag; rw [c3_flags, hF]
+        cases hw : c.username.isSome with
+        | false => rw [decide_eq_false_iff_not, fb8, hw]; simp
+        | true => rw [decide_eq_true_eq, fb8, hw])
+      (by
+        intro x hx
+        rw [hx] at hun
+        simpa [Wire.strOk] using hun)
+      (fun _ => trivial)
+  rw [← eB3, ← eL3] at s4
+  rw [s4]; simp only [bind_ok]
+  obtain ⟨c4, hc4'⟩ : ∃ c4 : ConnectF, setUser c3 c.username = c4 := ⟨_, rfl⟩
+  rw [hc4']
+  have c4_flags : c4.connectFlags = UInt8.ofNat c.flags := by rw [← hc4', setUser_flags]; exact c3_flags
+  -- password
+  have eB4 : B = (Wire.str name ++ (c.level :: UInt8.ofNat c.flags :: Wire.u16 c.keepAlive) ++ Wire.str c.clientId ++ willBytes c.will ++ Wire.optStr c.username) ++
+      (Wire.optStr c.password ++ []) := by rw [← hB]; simp
+  have eL4 : 2 + name.length + 1 + 1 + 2 + (2 + c.clientId.length) + (willBytes c.will).length + (Wire.optStr c.username).length =
+      (Wire.str name ++ (c.level :: UInt8.ofNat c.flags :: Wire.u16 c.keepAlive) ++ Wire.str c.clientId ++ willBytes c.will ++ Wire.optStr c.username).length := by
+    simp [Wire.str, Wire.u16]; omega
+  obtain ⟨v4, s5⟩ := connectPass_wire c4 (Wire.str name ++ (c.level :: UInt8.ofNat c.flags :: Wire.u16 c.keepAlive) ++ Wire.str c.clientId ++ willBytes c.will ++ Wire.optStr c.username)
+      [] c.password base
+      (by
+        unfold ConnectF.passwordFlag; rw [c4_flags, hF]
+        cases hw : c.password.isSome with
+        | false => rw [decide_eq_false_iff_not, fb7, hw]; simp
+        | true => rw [decide_eq_true_eq, fb7, hw])
+      (by
+        intro x hx
+        rw [hx] at hpw
+        simp only [Bool.and_eq_true, Wire.strOk, decide_eq_true_eq] at hpw
+        exact hpw.1)
+  rw [← eB4, ← eL4] at s5
+  rw [s5]; simp only [bind_ok]
+  have hlen : 2 + name.length + 1 + 1 + 2 + (2 + c.clientId.length) + (willBytes c.will).length + (Wire.optStr c.username).length +
+      (Wire.optStr c.password).length = B.length := by
+    rw [← hB]; simp [Wire.str, Wire.u16]; omega
+  rw [hlen]
+  refine ⟨setPass c4 c.password, _, rfl, ?_⟩
+  rw [← hc4', ← hc3', ← hc2', ← hc1']
+  refine ⟨?_, ?_, ?_, ?_, ?_, ?_, ?_⟩
+  all_goals (cases c.will <;> cases c.username <;> cases c.password <;> simp [setWill, setUser, setPass])
+
+theorem connect_body_le (c : Wire.Connect) (hwf : Wire.WF (.connect c)) :
+    (Wire.Packet.connect c).body.length ≤ 268435455 := by
+  unfold Wire.WF Wire.wf at hwf
+  simp only [Bool.and_eq_true, Bool.or_eq_true, decide_eq_true_eq] at hwf
+  obtain ⟨⟨⟨⟨hlev, hcid⟩, hwill⟩, hun⟩, hpw⟩ := hwf
+  obtain ⟨hc1, _, _⟩ := validClientID_of_ok _ _ hcid
+  rw [connect_body_eq]
+  have hnl : (Wire.protoName c.level).length ≤ 6 := by
+    rcases hlev with h | h <;> rw [h] <;> decide
+  have hw : (willBytes c.will).length ≤ 131074 := by
+    cases hw : c.will with
+    | none => simp [willBytes]
+    | some w =>
+      rw [hw] at hwill
+      simp only [Bool.and_eq_true, decide_eq_true_eq, Wire.strOk] at hwill
+      simp [willBytes, Wire.str]; omega
+  have hu : (Wire.optStr c.username).length ≤ 65537 := by
+    cases hw : c.username with
+    | none => simp [Wire.optStr]
+    | some w =>
+      rw [hw] at hun
+      simp only [decide_eq_true_eq, Wire.strOk] at hun
+      simp [Wire.optStr, Wire.str]; omega
+  have hp : (Wire.optStr c.password).length ≤ 65537 := by
+    cases hw : c.password with
+    | none => simp [Wire.optStr]
+    | some w =>
+      rw [hw] at hpw
+      simp only [Bool.and_eq_true, decide_eq_true_eq, Wire.strOk] at hpw
+      simp [Wire.optStr, Wire.str]; omega
+  simp [Wire.str, Wire.u16]; omega
+
+theorem willQos_le_of_wf (c : Wire.Connect) (hwf : Wire.WF (.connect c)) : willQosOf c ≤ 2 := by
+  unfold Wire.WF Wire.wf at hwf
+  simp only [Bool.and_eq_true, Bool.or_eq_true, decide_eq_true_eq] at hwf
+  obtain ⟨⟨⟨⟨hlev, hcid⟩, hwill⟩, hun⟩, hpw⟩ := hwf
+  unfold willQosOf
+  cases hw : c.will with
+  | none => simp
+  | some w =>
+    rw [hw] at hwill
+    simp only [Bool.and_eq_true, decide_eq_true_eq] at hwill
+    exact hwill.2
+
+theorem absConnect_eq (h : Hdr) (c : Wire.Connect) (c' : ConnectF) (hq : willQosOf c ≤ 2)
+    (a1 : c'.version = c.level) (a2 : c'.connectFlags = UInt8.ofNat c.flags) (a3 : c'.keepAlive = c.keepAlive.toNat)
+    (a4 : c'.clientID = c.clientId)
+    (a5 : ∀ w, c.will = some w → c'.willTopic = w.topic ∧ c'.willMessage = w.message)
+    (a6 : ∀ u, c.username = some u → c'.username = u) (a7 : ∀ p, c.password = some p → c'.password = p) :
+    absMsg (.connect h c') = .connect c := by
+  obtain ⟨fb1, fb2, fb3, fb4, fb5, fb6, fb7, fb8⟩ := flags_bits c hq
+  have hF : (UInt8.ofNat c.flags).toNat = c.flags := u8_ofNat_toNat fb1
+  simp only [absMsg, ConnectF.cleanSession, ConnectF.willFlag, ConnectF.willQos, ConnectF.willRetain,
+    ConnectF.usernameFlag, ConnectF.passwordFlag, a1, a2, a3, a4, hF, fb5]
+  obtain ⟨level, clean, ka, cid, will, un, pw⟩ := c
+  simp only [] at *
+  congr 1
+  have e1 : decide (Wire.Connect.flags ⟨level, clean, ka, cid, will, un, pw⟩ / 2 % 2 = 1) = clean := by
+    cases clean <;> simp [fb3]
+  have e2 : UInt16.ofNat ka.toNat = ka := by simp
+  rw [e1, e2]
+  congr 1
+  · cases will with
+    | none =>
+      have : ¬ (Wire.Connect.flags ⟨level, clean, ka, cid, none, un, pw⟩ / 4 % 2 = 1) := by rw [fb4]; simp
+      simp [this]
+    | some w =>
+      have : (Wire.Connect.flags ⟨level, clean, ka, cid, some w, un, pw⟩ / 4 % 2 = 1) := by rw [fb4]; simp
+      obtain ⟨t1, t2⟩ := a5 w rfl
+      simp only [this, decide_true, if_true, t1, t2]
+      obtain ⟨wt, wm, q, r⟩ := w
+      simp only [willQosOf, willRetainOf] at fb6 ⊢
+      congr 2
+      · simp
+      · cases r <;> simp [fb6]
+  · cases un with
+    | none =>
+      have : ¬ (Wire.Connect.flags ⟨level, clean, ka, cid, will, none, pw⟩ / 128 % 2 = 1) := by rw [fb8]; simp
+      simp [this]
+    | some u =>
+      have : (Wire.Connect.flags ⟨level, clean, ka, cid, will, some u, pw⟩ / 128 % 2 = 1) := by rw [fb8]; simp
+      simp [this, a6 u rfl]
+  · cases pw with
+    | none =>
+      have : ¬ (Wire.Connect.flags ⟨level, clean, ka, cid, will, un, none⟩ / 64 % 2 = 1) := by rw [fb7]; simp
+      simp [this]
+    | some u =>
+      have : (Wire.Connect.flags ⟨level, clean, ka, cid, will, un, some u⟩ / 64 % 2 = 1) := by rw [fb7]; simp
+      simp [this, a7 u rfl]
+
+theorem accepts_connect (c : Wire.Connect) (hwf : Wire.WF (.connect c)) : Accepts (.connect c) := by
+  intro rest
+  have hble := connect_body_le c hwf
+  generalize hp : Wire.Packet.connect c = p at *
+  have e1 : p.type = 1 := by rw [← hp]; rfl
+  have e2 : p.flags = 0 := by rw [← hp]; rfl
+  have hdec := hdr_decode_wire (Hdr.new 1) 1 0 p.body rest
+    (by decide) (by decide) (by omega) (by intro _; decide) (by intro e; simp [tPUBLISH] at e) hble
+  unfold decodeNew
+  have hnew : Msg.new p.type = some (.connect (Hdr.new 1) {}) := by rw [e1]; rfl
+  rw [hnew]
+  simp only [decode, decodeConnect]
+  rw [sliceFrom_ok (Nat.zero_le _)]
+  simp only [bind_ok, List.drop_zero]
+  rw [encode_append, e1, e2, hdec]
+  simp only [bind_ok]
+  generalize hV : Wire.varint p.body.length = V
+  have hVl := varint_len_bounds p.body.length
+  rw [hV] at hVl
+  rw [sliceTo_eq (a := UInt8.ofNat (1 * 16 + 0) :: (V ++ p.body)) (b := rest) (by simp) (by simp; omega)]
+  simp only [bind_ok]
+  rw [sliceFrom_eq (a := UInt8.ofNat (1 * 16 + 0) :: V) (b := p.body) (by simp) (by simp; omega)]
+  simp only [bind_ok]
+  rw [← hp] at hwf
+  obtain ⟨c', vs, hm, a1, a2, a3, a4, a5, a6, a7⟩ := decodeConnectMessage_wire c (by rw [hp] at hwf; rw [← hp] at hwf; exact hwf) (1 + V.length)
+  rw [hp] at hm
+  rw [hm]
+  simp only [bind_ok]
+  rw [if_neg (by simp; omega)]
+  have henc : (Wire.encode p).length = 1 + V.length + p.body.length := by
+    unfold Wire.encode; rw [List.length_cons, List.length_append, hV]; omega
+  refine ⟨_, rfl, ?_, ?_⟩
+  · rw [henc]
+  · rw [← hp]
+    exact absConnect_eq _ c c' (willQos_le_of_wf c hwf) a1 a2 a3 a4 a5 a6 a7
+
+/-- every decoder accepts the reference encoding of every well-formed packet of its type
+(followed by arbitrary bytes) and returns exactly that packet's fields and length -/
+theorem accepts_wf (p : Wire.Packet) (hwf : Wire.WF p) : Accepts p := by
+  cases p with
+  | connect c => exact accepts_connect c hwf
+  | connack sp code =>
+    apply accepts_connack
+    unfold Wire.WF Wire.wf at hwf
+    exact of_decide_eq_true hwf
+  | publish dup qos ret topic id payload => exact accepts_publish _ _ _ _ _ _ hwf
+  | puback id => exact accepts_puback id
+  | pubrec id => exact accepts_pubrec id
+  | pubrel id => exact accepts_pubrel id
+  | pubcomp id => exact accepts_pubcomp id
+  | subscribe id fs => exact accepts_subscribe id fs hwf
+  | suback id codes => exact accepts_suback id codes hwf
+  | unsubscribe id fs => exact accepts_unsubscribe id fs hwf
+  | unsuback id => exact accepts_unsuback id
+  | pingreq => exact accepts_pingreq
+  | pingresp => exact accepts_pingresp
+  | disconnect => exact accepts_disconnect
+
 end Mqtt.Proofs.Codec
